@@ -450,6 +450,22 @@ def fixed_fd_scripts(prefix, methods=METHODS):
                         out.append("\n".join(["B %sf%d.%s.%s method=%s seed=%d maxwait=14 reuse=%d keep=%d" %
                                               (prefix, n, variant, m, m, n, keep, keep)] + decl[:nf] + body + drain[:nf] +
                                              [t for t in tail if int(t.split()[3]) <= nf] + ["X"]) + "\n")
+    # a registration attempt on a closed descriptor fails and must leave nothing behind: the number is
+    # handed out again, registered, used, unregistered, and becomes ready once more afterwards
+    for keep in (0, 1):
+        for tail_unreg in (0, 1):
+            for m in methods:
+                n += 1
+                # tail_unreg = 0: the same object takes the new descriptor; 1: another object does
+                who = 4 if tail_unreg else 3
+                body = ["S fd_reg 1 1 0 0", "S fd_reg 2 1 0 0", "S fd_closeos 3", "S fd_try 3 1 0 0", "S fd_newos %d" % who,
+                        "S fd_reg %d 1 0 0" % who]
+                react = ["R fd 1 1 0 drain 1", "R fd 2 1 0 drain 2", "R fd 3 1 0 drain 3", "R fd 4 1 0 drain 4",
+                         "R fd 1 1 2 fd_unreg %d" % who]
+                env = ["E 1 pwrite %d 1" % who, "E 2 pwrite 1 1", "E 3 pwrite %d 1" % who, "E 4 pwrite 1 1", "E 5 pwrite %d 1" % who,
+                       "E 6 pwrite 2 1"]
+                out.append("\n".join(["B %sf%d.try-closed.%s method=%s seed=%d maxwait=14 reuse=%d keep=%d" % (prefix, n, m, m, n, keep, keep)]
+                                     + decl[:4] + body + react + env + ["X"]) + "\n")
     return out
 
 
